@@ -38,6 +38,9 @@ pub enum Variant {
     Joiner(u8),
     /// the successor stops taking the token after some visits
     NsRemoved,
+    /// some GAP addresses are occupied by slaves: they answer the status request (as slaves), which
+    /// must not lead to a second poll in the same token visit
+    SlavesInGap,
     /// the token gets lost while the successor holds it: the station re-claims it and must scan its
     /// whole (current) GAP right away
     TokenLost,
@@ -155,6 +158,7 @@ pub fn gap_case(rep: &mut Report, seed: u64, idx: u64, ts: u8, ns: u8, hsa: u8, 
         _ => None,
     };
     let joiner_at_poll = 1 + rng.usize(2);
+    let slaves_in_gap: Vec<u8> = if variant == Variant::SlavesInGap { gap.iter().copied().filter(|_| rng.chance(2, 3)).collect() } else { vec![] };
     let mut joiner_polls = 0;
     let remove_at = if variant == Variant::NsRemoved && !alone { Some(3 + rng.usize(n_visits / 2)) } else { None };
     let mut visit_polls: Vec<Option<u8>> = Vec::new(); // per visit: polled address
@@ -322,6 +326,11 @@ pub fn gap_case(rep: &mut Report, seed: u64, idx: u64, ts: u8, ns: u8, hsa: u8, 
                     return;
                 }
                 polled = Some(a);
+                if slaves_in_gap.contains(&a) {
+                    let r = g.rig.status_reply(a, ts, 0);
+                    g.rig.env_tel(&r, 14);
+                    g.rep.count("C12_gap_polls_answered_by_slaves");
+                }
                 // joiner answers at its k-th poll
                 if Some(a) == joiner {
                     joiner_polls += 1;
@@ -486,6 +495,30 @@ pub fn status_case(rep: &mut Report, seed: u64, idx: u64, verbose: bool) {
             rep.count("C12_panic_seen");
             return;
         }
+        // sometimes the station's poll() stalls for longer than a slot time while a status request for
+        // it and the requester's next telegram arrive: the stale request must not be answered
+        if rng.chance(1, 12) {
+            rig.settle();
+            rig.world.stations[0].running = false;
+            let rq = rig.status_request(cur, ts);
+            rig.env_tel(&rq, 40);
+            let k = ring.iter().position(|x| *x == cur).unwrap();
+            let next = ring[(k + 1) % ring.len()];
+            // the requester waits its slot time in vain and carries on
+            let t = rig.now() + cfg.tslot() + cfg.bits(20);
+            rig.run_until(t);
+            rig.env_token(cur, next, 34);
+            model.witness(cur, next);
+            cur = next;
+            rig.world.stations[0].running = true;
+            let until = rig.now() + cfg.tslot() + cfg.lat();
+            if let Err(f) = rig.station_silent_until(until) {
+                viol = Some(("C12/S/answers-stale-request-after-slot-time".into(), format!("the station did not poll for more than a slot time; the status request it found afterwards (followed by another telegram) was answered {}us after the request: {:?}", f.start - (t - cfg.tslot() - cfg.bits(20)), f.decoded.map(|t| t.short()))));
+                break 'outer;
+            }
+            rep.count("C12_S_stale_requests_not_answered");
+            continue;
+        }
         // sometimes somebody asks for the station's status (the token holder `cur` or a stranger)
         if rng.chance(1, 2) {
             rig.settle();
@@ -585,6 +618,7 @@ pub fn c12(ctx: &mut Ctx) {
                     0 => Variant::Plain,
                     2 | 3 => Variant::Joiner(v[5] as u8),
                     7 => Variant::TokenLost,
+                    5 => Variant::SlavesInGap,
                     _ => Variant::NsRemoved,
                 };
                 gap_case(&mut ctx.rep, s, v[0], v[1] as u8, v[2] as u8, v[3] as u8, v[4] as u8, variant, true);
@@ -604,7 +638,7 @@ pub fn c12(ctx: &mut Ctx) {
         for ts in 0..hsa {
             for ns in 0..hsa {
                 for gf in [1u8, 3] {
-                    for (vc, variant) in [(0u64, Variant::Plain), (2, Variant::Joiner(2)), (3, Variant::Joiner(3)), (9, Variant::NsRemoved), (7, Variant::TokenLost)] {
+                    for (vc, variant) in [(0u64, Variant::Plain), (2, Variant::Joiner(2)), (3, Variant::Joiner(3)), (9, Variant::NsRemoved), (7, Variant::TokenLost), (5, Variant::SlavesInGap)] {
                         idx += 1;
                         if !ctx.mine(idx) {
                             continue;
@@ -638,7 +672,7 @@ pub fn c12(ctx: &mut Ctx) {
         let gf = *rng.pick(&[1u8, 2, 5, 10, 40, 100]);
         // keep the run length sane
         let gf = if hsa > 40 { gf.min(10) } else { gf };
-        let (vc, variant) = *rng.pick(&[(0u64, Variant::Plain), (2, Variant::Joiner(2)), (3, Variant::Joiner(3)), (9, Variant::NsRemoved), (7, Variant::TokenLost)]);
+        let (vc, variant) = *rng.pick(&[(0u64, Variant::Plain), (2, Variant::Joiner(2)), (3, Variant::Joiner(3)), (9, Variant::NsRemoved), (7, Variant::TokenLost), (5, Variant::SlavesInGap)]);
         ctx.rep.cur_case = format!("c12g {} {} {} {} {} {} seed {}", i, ts, ns, hsa, gf, vc, seed);
         gap_case(&mut ctx.rep, seed, i, ts, ns, hsa, gf, variant, false);
     }
